@@ -390,11 +390,17 @@ pub struct RtCase {
 }
 
 pub fn gen_rt(r: &mut Rng) -> RtCase {
-    let n = match r.below(10) {
-        0 => 0,
-        1..=4 => r.range(1, 3),
-        5..=8 => r.range(3, 8),
-        _ => r.range(8, 20),
+    // now and then a long list (beyond the csv writer's 8 KiB buffer) with multi-byte memos
+    let long = r.chance(2);
+    let n = if long {
+        r.range(250, 700)
+    } else {
+        match r.below(10) {
+            0 => 0,
+            1..=4 => r.range(1, 3),
+            5..=8 => r.range(3, 8),
+            _ => r.range(8, 20),
+        }
     } as usize;
     // odd = values outside the parser's normal form may appear (round trip need not be exact)
     let odd = r.chance(10);
@@ -478,7 +484,7 @@ pub fn gen_rt(r: &mut Rng) -> RtCase {
             trade_date: td,
             settlement_date: sd,
             action_specifics: spec,
-            memo: rand_memo(r),
+            memo: if long { format!("{}日本語のメモ é {}", "x".repeat(r.below(4) as usize), i) } else { rand_memo(r) },
             affiliate: aff,
             read_index: if r.chance(50) { i as u32 } else { r.below(1000) as u32 },
         });
@@ -543,6 +549,20 @@ pub fn run_rt(id: &str, c: &RtCase, out: &mut String) {
             }
         };
         o.push_str(&format!("impl bytes1 {}\n", hex(&b1)));
+        // the same list through the in-memory writer (what the web UI and the summary mode use)
+        {
+            let (mut wh, sb) = acb::util::rw::WriteHandle::string_buff_write_handle();
+            match write_txs_to_csv(&csv_txs, &mut wh) {
+                Ok(_) => {
+                    if sb.borrow().as_str().as_bytes() == &b1[..] {
+                        o.push_str("impl sbuf same\n");
+                    } else {
+                        o.push_str("impl sbuf differ\n");
+                    }
+                }
+                Err(e) => o.push_str(&format!("impl sbuf err {}\n", stok(&e.to_string()))),
+            }
+        }
         let text = match String::from_utf8(b1.clone()) {
             Ok(t) => t,
             Err(_) => {
